@@ -964,7 +964,7 @@ def module_ops(case):
         looks = {}
         for item in f["items"]:
             if "use" in item:
-                ops.append({"op": "use", "kind": item["use"]})
+                ops.append({"op": "use", "kind": item["use"], "legacy": bool(item.get("legacy"))})
             else:
                 ops.append({"op": "reg", "st": item["st"], "fn": fid, "pat": item["pat"]})
                 looks[fid] = item["insts"]
@@ -1010,10 +1010,11 @@ def module_source(imp, ops, sibling=None):
         # "This may occur when a step module imports another one" (StepRegistry.add_step_definition)
         lines.append(u"import m%02d_steps" % sibling)
     if imp:
-        lines.append(u"from behave import given, when, then, step, use_step_matcher")
+        lines.append(u"from behave import given, when, then, step, use_step_matcher, step_matcher")
     for op in ops:
         if op["op"] == "use":
-            lines.append(u"use_step_matcher(%r)" % op["kind"])
+            # `step_matcher(name)` is the older spelling of use_step_matcher(name): same effect
+            lines.append((u"step_matcher(%r)" if op.get("legacy") else u"use_step_matcher(%r)") % op["kind"])
         else:
             lines += [u"", u"@%s(%r)" % (op["st"], render(op["pat"])),
                       u"def step_impl(context, *args, **kwargs):",
@@ -1085,6 +1086,8 @@ def check_modules(res, case):
                     relied = True
                 if op["op"] == "use":
                     first = False
+                    if op.get("legacy"):
+                        res.label("modules:legacy-step_matcher-alias")
                 model.apply(op)
             switched = switched or model.kind != default
         if relied:
@@ -1284,7 +1287,7 @@ def modules_case_st(draw):
         for seg in range(draw(st.integers(1, 3))):
             if seg:
                 kind = draw(st.sampled_from(KINDS))
-                items.append({"use": kind})
+                items.append({"use": kind, "legacy": draw(st.integers(0, 3)) == 0})
             for _d in range(draw(st.integers(0 if seg == 0 and not draw(st.integers(0, 3)) else 1, 2))):
                 pat = draw(pattern_st(kind, sorted(CONVERTERS), first_literal=next(uniq), max_fields=2))
                 items.append({"st": draw(st.sampled_from(STYPES)), "pat": pat, "insts": draw(insts_st(pat))})
@@ -1444,7 +1447,7 @@ def required_labels(tier):
                "look:bound", "look:unbound", "look:other-step-type", "look:specific-over-generic",
                "look:earlier-over-later", "look:generic-hit", "look:earlier-match-still-held", "reg:type-converter-replaced",
                "reg:added", "reg:ignored", "reg:ambiguous", "hist:nontrivial",
-               "modules:default-after-switch", "modules:env-default", "modules:sibling-import",
+               "modules:default-after-switch", "modules:env-default", "modules:legacy-step_matcher-alias", "modules:sibling-import",
                "modules:cwd-1", "modules:cwd-2", "modules:cwd-3"])
 
 
